@@ -59,12 +59,15 @@ class C03(DiffProperty):
     level_text = ("proof: Coq theorems for EVERY byte list and every well-formed resume state: one decoder call writes only into the already "
                   "consumed part of the region and keeps the state well formed (C03_call_writes_only_consumed_part); gap accounting; resuming after "
                   "exhausted input equals one call on the concatenation (any segmentation); a delivered message is the reference decoding of the "
-                  "consumed frame and a zero inside a block never becomes a message except as the COBS/R tail-inline decoding (honesty); well-formed "
-                  "frames are delivered as exactly the reference decoding when the gap suffices, and COBS / COBS/R need no slack. Tied to the code "
-                  "by differential execution (return code, full state and buffer image after every call) incl. the exhaustive small-string sweep")
-    level_note = ("partial: honesty/completeness are proved for the block loop (dec_loop) from a resume context inside the data part; the lifting "
-                  "of honesty through the call wrapper over multi-call histories (alignment, previous-message consumption) and resumption after "
-                  "MissingBuffer in the middle of a ZPE zero pair are covered by the correspondence run only. mpt_decode_command is not covered. "
+                  "consumed frame and a zero inside a block never becomes a message except as the COBS/R tail-inline decoding (honesty), at loop level AND "
+                  "at call level (C03_call_delivers_reference_decoding: previous-message consumption, target alignment, code byte, COBS/R wrapper) and for "
+                  "every history of calls and input feeds (C03_history_delivers_frames: what is delivered is, in order, the reference decoding of the frames "
+                  "at the front of the input); well-formed frames are delivered as exactly the reference decoding when the gap suffices, and COBS / COBS/R "
+                  "need no slack. Tied to the code by differential execution (return code, full state and buffer image after every call) incl. the "
+                  "exhaustive small-string sweep")
+    level_note = ("partial: (1) completeness (a well-formed frame IS delivered given enough gap) is proved for the block loop, not lifted to call "
+                  "histories; (2) the call-level history theorem stops at the first error result: resumption after MissingBuffer in the middle of a ZPE "
+                  "zero pair and peek mode are covered by the correspondence run only. mpt_decode_command is not covered. "
                   "Termination: the model is structurally recursive on the input (each byte read at most once); C-level termination is observed (per-case timeout). "
                   "All theorems closed under the global context.")
     technique = "Coq proofs over the in-place decoder model (safety region, gap invariant, honesty, completeness) + exhaustive small-scope differential check"
